@@ -195,6 +195,14 @@ fn features(case: &Case, lines: &[String]) -> Vec<&'static str> {
     if rows > 10 {
         f.push("rows>10");
     }
+    if rows > 255 {
+        f.push("rows>255");
+    }
+    for t in &case.tags {
+        if t.starts_with("scale") || *t == "wide" {
+            f.push(t);
+        }
+    }
     if lines.iter().any(|l| l.starts_with("parse ok")) {
         f.push("parse-ok");
     } else {
@@ -327,7 +335,13 @@ pub fn suite_run(ctx: &mut Ctx, suite: &str, n: u64) {
         }
         let mut cr = Prng::new(cs);
         // now and then a case beyond the usual size bounds (64+ columns, `bits(64, …)`)
-        let case = if idx % 97 == 41 { gen_wide_case(&mut cr, &prof) } else { gen_case(&mut cr, &prof) };
+        let case = if idx % 97 == 41 {
+            gen_wide_case(&mut cr, &prof)
+        } else if idx % 97 == 73 {
+            gen_scale_case(&mut cr, &prof)
+        } else {
+            gen_case(&mut cr, &prof)
+        };
         let printed = print(&case.prog, &mut Prng::new(case.style_seed), &case.style);
         judge_run_case(ctx, suite, cs, &case, &printed.text, Some(&printed));
     }
